@@ -39,7 +39,8 @@ const (
 type zzC04Shape struct {
 	nreq, nopt, optdef int // optdef: 0 no default, 1 constant default, 2 default is the form (+ 100 i)
 	rest               bool
-	nkey, keydef       int // keydef as optdef (constant 200+i / form (+ 200 i))
+	body               bool // the rest parameter is introduced by &body
+	nkey, keydef       int  // keydef as optdef (constant 200+i / form (+ 200 i))
 	allow              bool
 	naux               int
 }
@@ -59,7 +60,11 @@ func zzC04LambdaList(sh zzC04Shape) List {
 		}
 	}
 	if sh.rest {
-		ll = append(ll, Symbol("&rest"), Symbol("rs"))
+		if sh.body {
+			ll = append(ll, Symbol("&body"), Symbol("rs"))
+		} else {
+			ll = append(ll, Symbol("&rest"), Symbol("rs"))
+		}
 	}
 	if 0 < sh.nkey {
 		ll = append(ll, Symbol("&key"))
@@ -73,9 +78,15 @@ func zzC04LambdaList(sh zzC04Shape) List {
 	if 0 < sh.naux {
 		ll = append(ll, Symbol("&aux"))
 		for i := 0; i < sh.naux; i++ {
-			if i == 0 {
+			switch {
+			case i == 0:
 				ll = append(ll, List{Symbol("x0"), Fixnum(41)})
-			} else {
+			case i == 2 && 0 < sh.nreq:
+				// init form referring to an earlier parameter
+				ll = append(ll, List{Symbol("x2"), List{Symbol("+"), Symbol("r0"), Fixnum(1)}})
+			case i == 2:
+				ll = append(ll, List{Symbol("x2"), List{Symbol("+"), Fixnum(40), Fixnum(2)}})
+			default:
 				ll = append(ll, Symbol(zzC04Name("x", i)))
 			}
 		}
@@ -206,9 +217,14 @@ func zzC04Reference(sh zzC04Shape, args List) (e zzC04Exp) {
 		return
 	}
 	for i := 0; i < sh.naux; i++ {
-		if i == 0 {
+		switch {
+		case i == 0:
 			e.bind("x0", Fixnum(41))
-		} else {
+		case i == 2 && 0 < sh.nreq:
+			e.bind("x2", Fixnum(int64(args[0].(Fixnum))+1))
+		case i == 2:
+			e.bind("x2", Fixnum(42))
+		default:
 			e.bind(zzC04Name("x", i), nil)
 		}
 	}
@@ -293,12 +309,20 @@ func zzC04Actuals(sh zzC04Shape, nargs int) List {
 
 // VerifC04Bind: Lambda.Call binds exactly as the reference binder, or both reject.
 //
+// rest: 0 none, 1 &rest, 2 &body.  naux: x0 has a constant init, x1 none, x2 the
+// init form (+ r0 1) (or (+ 40 2) without required parameters).
 // outer = 1: the calling scope has variables named like every optional and key
 // parameter (bound to 999), which must not influence the bindings.
 func VerifC04Bind(nreq, nopt, optdef, rest, nkey, keydef, allow, naux, nargs, outer int) {
-	sh := zzC04Shape{nreq: nreq, nopt: nopt, optdef: optdef, rest: rest != 0, nkey: nkey, keydef: keydef,
+	sh := zzC04Shape{nreq: nreq, nopt: nopt, optdef: optdef, rest: rest != 0, body: rest == 2, nkey: nkey, keydef: keydef,
 		allow: allow != 0, naux: naux}
 	args := zzC04Actuals(sh, nargs)
+	if 2 < naux && 0 < nreq && 0 < nargs {
+		// x2 = (+ r0 1): keep the sum inside the fixnum range (overflow is C05's subject)
+		r0 := int64(args[0].(Fixnum))
+		vrt.Assume(-(1 << 62) < r0)
+		vrt.Assume(r0 < 1<<62)
+	}
 	exp := zzC04Reference(sh, args)
 
 	scope := NewScope()
